@@ -24,7 +24,8 @@ RULE = ("781 real RF24Network nodes (every valid address of levels 0..4) on one 
         "transmission was observed; distinct = (byte set, multicast flag, node, destination "
         "class, role).")
 REQUIRED = {"listening_entries": 4000, "next_hop_origin": 1000, "next_hop_router": 1000,
-            "multicast_level": 50, "path_composition": 500}
+            "multicast_level": 50, "path_composition": 500, "history_independent": 300,
+            "readdressed_like_fresh": 30}
 BUDGET = {"quick": 150, "thorough": 900}
 EXHAUSTIVE = {"quick": "all 781x6 listening entries (default bytes, multicast on and off)",
               "thorough": "all 781x780 (source, destination) pairs in both roles with default bytes; all 781x6 listening entries for every byte set"}
@@ -132,6 +133,9 @@ def run_shard(ctx):
                 continue
             if mc:
                 multicast_checks(ctx, net, mine, rng, ci)
+            if ci < 2 or ctx.tier == "thorough":
+                history_checks(ctx, net, mine, rng, ci, mc)
+                readdress_checks(ctx, net, mine, rng, ci, mc)
         finally:
             net.close()
 
@@ -175,9 +179,77 @@ def table_checks(ctx, net, prefix, suffix, mc, ci):
     return True
 
 
-def hop_checks(ctx, net, mine, full, ndst, rng, ci, mc):
+def one_hop(ctx, net, n, d, role, ci, tag=""):
+    """node n transmits towards d (as origin, or as router of an injected frame); the FIRST packet
+    must be accepted by exactly the reference next hop. Returns the hop, None (violation) or
+    "skip"."""
     Hdr = net.m["structs"].RF24NetworkHeader
     node = net.node
+    want = net_ref.next_hop(n, d)
+    net.clear_rx()
+    node.deadline = node.t + 2000 * W.MS
+    try:
+        if role == "origin":
+            ret = net.objs[n].send(Hdr(d, 0), b"c04")
+        else:
+            # only where n really is an intermediate hop: an origin whose tree
+            # path to d passes through n
+            lvl = net_ref.level(n)
+            if lvl == 4:
+                return "skip"  # leaves never forward
+            if net_ref.is_descendant(d, n):
+                if n:
+                    origin = net_ref.parent(n)
+                else:
+                    br = net_ref.digits(d)[0]
+                    origin = 1 if br != 1 else 2
+            else:
+                origin = n | (1 << (3 * lvl))
+                if origin == net_ref.DEFAULT_ADDR:
+                    origin = n | (2 << (3 * lvl))
+            frame = net_ref.pack_header(origin, d, 77, 0, 0) + b"c04"
+            net.radios[n].inject_rx(1, frame)
+            ret = net.objs[n].update()
+    except W.VirtualDeadline:
+        ctx.violation("no-return/" + role, "node %o -> %o did not return" % (n, d),
+                      {"cfg": ci, "n": n, "d": d, "role": role})
+        return None
+    except Exception as e:  # noqa: BLE001
+        ctx.violation("raised/" + role, "node %o as %s for destination %o raised %r %s"
+                      % (n, role, d, e, tag), {"cfg": ci, "n": n, "d": d, "role": role})
+        return None
+    finally:
+        node.deadline = None
+    rec, pkt = net.first_tx(n)
+    ctx.clause("next_hop_" + role)
+    ctx.evaluations += 1
+    case = {"cfg": ci, "n": n, "d": d, "role": role}
+    if tag:
+        case["history"] = tag
+    if pkt is None:
+        ctx.violation("nothing-transmitted/" + role, "node %o as %s for destination %o "
+                      "transmitted nothing (returned %r) %s" % (n, role, d, ret, tag), case)
+        return None
+    if len(rec) != 1:
+        ctx.violation("hop-not-unique/" + role, "node %o -> %o: TX address %s accepted "
+                      "by %r %s" % (n, d, pkt.addr.hex(), [("%o" % a, p) for a, p in rec], tag), case)
+        return None
+    got = rec[0][0]
+    if got != want:
+        ctx.violation("wrong-next-hop/" + role, "node %o as %s for destination %o "
+                      "transmitted to node %o, the tree path goes via %o %s"
+                      % (n, role, d, got, want, tag), case)
+        return None
+    if got != net_ref.parent(n) and net_ref.parent(got) != n:
+        ctx.violation("hop-not-neighbour/" + role, "%o -> %o is neither parent nor "
+                      "child" % (n, got), case)
+        return None
+    if role == "origin" and ret is not True:
+        ctx.cross_obs("C05", "write-false", "node %o -> %o returned %r" % (n, d, ret))
+    return got
+
+
+def hop_checks(ctx, net, mine, full, ndst, rng, ci, mc):
     observed = {}
     for n in mine:
         if ctx.out_of_time():
@@ -187,61 +259,11 @@ def hop_checks(ctx, net, mine, full, ndst, rng, ci, mc):
             for role in ("origin", "router"):
                 if role == "router" and not full and (d + n) % 3 and ci:
                     continue
-                want = net_ref.next_hop(n, d)
-                net.clear_rx()
-                node.deadline = node.t + 2000 * W.MS
-                try:
-                    if role == "origin":
-                        ret = net.objs[n].send(Hdr(d, 0), b"c04")
-                    else:
-                        # only where n really is an intermediate hop: an origin whose tree
-                        # path to d passes through n
-                        lvl = net_ref.level(n)
-                        if lvl == 4:
-                            continue  # leaves never forward
-                        if net_ref.is_descendant(d, n):
-                            if n:
-                                origin = net_ref.parent(n)
-                            else:
-                                br = net_ref.digits(d)[0]
-                                origin = 1 if br != 1 else 2
-                        else:
-                            origin = n | (1 << (3 * lvl))
-                            if origin == net_ref.DEFAULT_ADDR:
-                                origin = n | (2 << (3 * lvl))
-                        frame = net_ref.pack_header(origin, d, 77, 0, 0) + b"c04"
-                        net.radios[n].inject_rx(1, frame)
-                        ret = net.objs[n].update()
-                except W.VirtualDeadline:
-                    ctx.violation("no-return/" + role, "node %o -> %o did not return" % (n, d),
-                                  {"cfg": ci, "n": n, "d": d, "role": role})
+                got = one_hop(ctx, net, n, d, role, ci)
+                if got is None:
                     return False
-                finally:
-                    node.deadline = None
-                rec, pkt = net.first_tx(n)
-                ctx.clause("next_hop_" + role)
-                ctx.evaluations += 1
-                case = {"cfg": ci, "n": n, "d": d, "role": role}
-                if pkt is None:
-                    ctx.violation("nothing-transmitted/" + role, "node %o as %s for destination %o "
-                                  "transmitted nothing (returned %r)" % (n, role, d, ret), case)
-                    return False
-                if len(rec) != 1:
-                    ctx.violation("hop-not-unique/" + role, "node %o -> %o: TX address %s accepted "
-                                  "by %r" % (n, d, pkt.addr.hex(), [("%o" % a, p) for a, p in rec]), case)
-                    return False
-                got = rec[0][0]
-                if got != want:
-                    ctx.violation("wrong-next-hop/" + role, "node %o as %s for destination %o "
-                                  "transmitted to node %o, the tree path goes via %o"
-                                  % (n, role, d, got, want), case)
-                    return False
-                if got != net_ref.parent(n) and net_ref.parent(got) != n:
-                    ctx.violation("hop-not-neighbour/" + role, "%o -> %o is neither parent nor "
-                                  "child" % (n, got), case)
-                    return False
-                if role == "origin" and ret is not True:
-                    ctx.cross_obs("C05", "write-false", "node %o -> %o returned %r" % (n, d, ret))
+                if got == "skip":
+                    continue
                 observed[(n, d, role)] = got
                 if (n + d) % 97 == 0:
                     ctx.nontrivial((ci, mc, net_ref.level(n), net_ref.level(d), role,
@@ -276,34 +298,138 @@ def hop_checks(ctx, net, mine, full, ndst, rng, ci, mc):
     return True
 
 
-def multicast_checks(ctx, net, mine, rng, ci):
+def one_multicast(ctx, net, n, lvl, ci, tag="", own_level=None):
     node = net.node
+    net.clear_rx()
+    node.deadline = node.t + 2000 * W.MS
+    try:
+        ret = net.objs[n].multicast(b"mc", 7, lvl) if lvl is not None else net.objs[n].multicast(b"mc", 7)
+    finally:
+        node.deadline = None
+    target = (net_ref.level(n) if own_level is None else own_level) if lvl is None else lvl
+    rec, pkt = net.first_tx(n)
+    ctx.clause("multicast_level")
+    case = {"cfg": ci, "n": n, "level": lvl}
+    if tag:
+        case["history"] = tag
+    if pkt is None:
+        ctx.violation("multicast-nothing-transmitted", "node %o multicast(level=%r) "
+                      "transmitted nothing (returned %r) %s" % (n, lvl, ret, tag), case)
+        return False
+    got = sorted(a for a, p in rec)
+    want = sorted(a for a in ALL if net_ref.level(a) == target and a != n)
+    if got != want or any(p != 0 for a, p in rec):
+        lv = sorted({net_ref.level(a) for a in got})
+        ctx.violation("multicast-wrong-level", "node %o multicast(level=%r): accepted by %d "
+                      "nodes of level(s) %r, expected the %d nodes of level %d %s"
+                      % (n, lvl, len(got), lv, len(want), target, tag), case)
+        return False
+    return True
+
+
+def multicast_checks(ctx, net, mine, rng, ci):
     senders = [a for a in mine if a in (0, 0o1, 0o2, 0o11, 0o21, 0o311, 0o5311)] + rng.sample(mine, min(3, len(mine)))
     for n in senders:
         for lvl in (None, 0, 1, 2, 3, 4):
-            net.clear_rx()
-            node.deadline = node.t + 2000 * W.MS
-            try:
-                ret = net.objs[n].multicast(b"mc", 7, lvl) if lvl is not None else net.objs[n].multicast(b"mc", 7)
-            finally:
-                node.deadline = None
-            target = net_ref.level(n) if lvl is None else lvl
-            rec, pkt = net.first_tx(n)
-            ctx.clause("multicast_level")
-            case = {"cfg": ci, "n": n, "level": lvl}
-            if pkt is None:
-                ctx.violation("multicast-nothing-transmitted", "node %o multicast(level=%r) "
-                              "transmitted nothing (returned %r)" % (n, lvl, ret), case)
-                continue
-            got = sorted(a for a, p in rec)
-            want = sorted(a for a in ALL if net_ref.level(a) == target and a != n)
-            if got != want or any(p != 0 for a, p in rec):
-                lv = sorted({net_ref.level(a) for a in got})
-                ctx.violation("multicast-wrong-level", "node %o multicast(level=%r): accepted by %d "
-                              "nodes of level(s) %r, expected the %d nodes of level %d"
-                              % (n, lvl, len(got), lv, len(want), target), case)
-                continue
-            ctx.nontrivial((ci, "mc", net_ref.level(n), lvl))
+            if one_multicast(ctx, net, n, lvl, ci):
+                ctx.nontrivial((ci, "mc", net_ref.level(n), lvl))
+
+
+SPECIAL = (0, 0o1, 0o2, 0o5, 0o11, 0o21, 0o15, 0o444, 0o4443, 0o3444, 0o1111, 0o311)
+
+
+def history_checks(ctx, net, mine, rng, ci, mc):
+    """what one node transmitted before must not matter: interleaved unicasts (as origin and as
+    router), multicasts to every level and unicasts whose next hop has the same number as a level
+    name (0o1 ~ level 1) - every transmission is judged like a first one"""
+    nodes = [a for a in mine if a in SPECIAL] + rng.sample(mine, min(4 if ctx.tier == "quick" else 16, len(mine)))
+    for n in nodes:
+        if ctx.out_of_time():
+            return
+        lvl = net_ref.level(n)
+        near = [d for d in (0o1, 0o11, 0o21, 0o321, 0o2, 0o12, 0, 0o4443, 0o4441) if d != n]
+        pool = dest_sample(rng, n, 12) + near
+        tag = []
+        for k in range(14 if ctx.tier == "quick" else 40):
+            r = rng.random()
+            if mc and r < 0.35:
+                L = rng.choice([None, 0, 1, 1, 2, 3, 4])
+                tag.append("mc%r" % L)
+                if not one_multicast(ctx, net, n, L, ci, tag="after " + ",".join(tag[-4:-1])):
+                    return
+            else:
+                d = rng.choice(pool)
+                role = "origin" if r < 0.8 or lvl == 4 else "router"
+                tag.append("%s>%o" % (role[0], d))
+                got = one_hop(ctx, net, n, d, role, ci, tag="after " + ",".join(tag[-4:-1]))
+                if got is None:
+                    return
+            ctx.clause("history_independent")
+        ctx.nontrivial((ci, "hist", n))
+
+
+def readdress_checks(ctx, net, mine, rng, ci, mc):
+    """a node object that was something else before (node_address / multicast_level assigned at
+    run time) listens and routes exactly like a fresh node of its final address"""
+    nodes = [a for a in mine if a in SPECIAL] + rng.sample(mine, min(5 if ctx.tier == "quick" else 24, len(mine)))
+    lvl_addr = {}
+    if mc:
+        for a in (0, 0o1, 0o11, 0o111, 0o1111):
+            lvl_addr[net_ref.level(a)] = net.radios[a].pipe_addr(0)
+    for n in nodes:
+        if ctx.out_of_time():
+            return
+        o, r = net.objs[n], net.radios[n]
+        fresh = [r.pipe_addr(p) for p in range(6)]
+        lvl = net_ref.level(n)
+        hist = []
+        for k in range(rng.randrange(1, 4)):
+            if mc and rng.random() < 0.45:
+                L = lvl if rng.random() < 0.5 else rng.randrange(0, 5)
+                o.multicast_level = L
+                hist.append("multicast_level=%d" % L)
+            else:
+                x = ALL[rng.randrange(len(ALL))]
+                o.node_address = x
+                hist.append("node_address=%o" % x)
+        o.node_address = n
+        hist.append("node_address=%o" % n)
+        final_mlevel = None
+        if mc and rng.random() < 0.3:
+            final_mlevel = rng.randrange(0, 5)
+            o.multicast_level = final_mlevel
+            hist.append("multicast_level=%d" % final_mlevel)
+        tag = "after " + "; ".join(hist)
+        now = [r.pipe_addr(p) for p in range(6)]
+        want = list(fresh)
+        if final_mlevel is not None:
+            want[0] = lvl_addr[final_mlevel]
+        ctx.clause("readdressed_like_fresh")
+        if now != want or r.r[2] != 0x3F:
+            bad = [p for p in range(6) if now[p] != want[p]]
+            ctx.violation("readdressed-listening", "node %o %s: pipes %r listen on %r, a fresh node "
+                          "listens on %r (EN_RXADDR %02X)" % (n, tag, bad, [now[p].hex() for p in bad],
+                                                             [want[p].hex() for p in bad], r.r[2]),
+                          {"cfg": ci, "n": n, "history": hist})
+            return
+        ok = True
+        for d in dest_sample(rng, n, 8):
+            if one_hop(ctx, net, n, d, "origin", ci, tag=tag) is None:
+                ok = False
+                break
+            if lvl < 4 and one_hop(ctx, net, n, d, "router", ci, tag=tag) is None:
+                ok = False
+                break
+        if not ok:
+            return
+        if mc:
+            if not one_multicast(ctx, net, n, None, ci, tag=tag, own_level=final_mlevel):
+                return
+            if not one_multicast(ctx, net, n, rng.randrange(0, 5), ci, tag=tag):
+                return
+        if final_mlevel is not None:
+            o.multicast_level = lvl
+        ctx.nontrivial((ci, "readdr", n, len(hist)))
 
 
 def run_case(ctx, case):
